@@ -23,6 +23,9 @@ open Sif
 
 def native : Asset := "rowan"
 
+/-- "is the settlement asset" (`StringCompare(x, nativeAsset)`) -/
+def isNative (a : Asset) : Bool := decide (a = native)
+
 /-- module account of x/clp (holds every pool's funds); its bech32 address is set by the harness -/
 structure Pool where
   sym : Asset
@@ -40,6 +43,17 @@ structure Pool where
   rate : Dec
   lastH : Int
   deriving Repr, DecidableEq, Inhabited
+
+
+/-- side accessors: `nat = true` is the native side -/
+def Pool.bal (p : Pool) (nat : Bool) : Nat := if nat then p.nBal else p.eBal
+def Pool.cust (p : Pool) (nat : Bool) : Nat := if nat then p.nCust else p.eCust
+def Pool.liab (p : Pool) (nat : Bool) : Nat := if nat then p.nLiab else p.eLiab
+def Pool.uns (p : Pool) (nat : Bool) : Nat := if nat then p.unsN else p.unsE
+def Pool.setBal (p : Pool) (nat : Bool) (v : Nat) : Pool := if nat then { p with nBal := v } else { p with eBal := v }
+def Pool.setCust (p : Pool) (nat : Bool) (v : Nat) : Pool := if nat then { p with nCust := v } else { p with eCust := v }
+def Pool.setLiab (p : Pool) (nat : Bool) (v : Nat) : Pool := if nat then { p with nLiab := v } else { p with eLiab := v }
+def Pool.setUns (p : Pool) (nat : Bool) (v : Nat) : Pool := if nat then { p with unsN := v } else { p with unsE := v }
 
 structure Mtp where
   addr : Addr
@@ -211,7 +225,7 @@ def swapFeeRate (c : ClpParams) (asset : Asset) (marginEnabled : Bool) : Dec :=
 
 /-- clp `CLPCalcSwap` (ExtractValues, ExtractDebt, CalcSwapResult, the `≥ Y` refusal) -/
 def clpCalcSwap (s : State) (sent : Nat) (to : Asset) (p : Pool) (marginEnabled : Bool) : Except Err Nat := do
-  let toRowan : Bool := to = native
+  let toRowan : Bool := isNative to
   let X := if toRowan then p.eBal else p.nBal
   let Y := if toRowan then p.nBal else p.eBal
   let src : Asset := if toRowan then p.sym else native
@@ -309,11 +323,11 @@ def borrow (w : W) (collAsset : Asset) (collAmt custAmt : Nat) (eta : Dec) : R W
   let w5 : W := { w4 with mtp := { w4.mtp with health := h } }
   let bank ← liftE w5 (ofBank (w5.s.bank.accToMod w5.mtp.addr w5.s.clp.clpAddr collAsset collAmt))
   let w6 : W := { w5 with s := { w5.s with bank := bank } }
-  let nat : Bool := w6.mtp.coll = native
-  let b ← liftM w6 (Uint.add (if nat then w6.pool.nBal else w6.pool.eBal) collAmt)
-  let w7 : W := { w6 with pool := if nat then { w6.pool with nBal := b } else { w6.pool with eBal := b } }
-  let l ← liftM w7 (Uint.add (if nat then w7.pool.nLiab else w7.pool.eLiab) w7.mtp.liab)
-  let w8 : W := { w7 with pool := if nat then { w7.pool with nLiab := l } else { w7.pool with eLiab := l } }
+  let nat : Bool := isNative w6.mtp.coll
+  let b ← liftM w6 (Uint.add (w6.pool.bal nat) collAmt)
+  let w7 : W := { w6 with pool := w6.pool.setBal nat b }
+  let l ← liftM w7 (Uint.add (w7.pool.liab nat) w7.mtp.liab)
+  let w8 : W := { w7 with pool := w7.pool.setLiab nat l }
   w8.storePool.storeMtp
 
 /-- `UpdatePoolHealth` -/
@@ -323,20 +337,20 @@ def updatePoolHealth (w : W) : R W := do
 
 /-- `TakeInCustody` -/
 def takeInCustody (w : W) : R W := do
-  let nat : Bool := w.mtp.cust = native
-  let b ← liftM w (Uint.sub (if nat then w.pool.nBal else w.pool.eBal) w.mtp.custody)
-  let w1 : W := { w with pool := if nat then { w.pool with nBal := b } else { w.pool with eBal := b } }
-  let c ← liftM w1 (Uint.add (if nat then w1.pool.nCust else w1.pool.eCust) w1.mtp.custody)
-  let w2 : W := { w1 with pool := if nat then { w1.pool with nCust := c } else { w1.pool with eCust := c } }
+  let nat : Bool := isNative w.mtp.cust
+  let b ← liftM w (Uint.sub (w.pool.bal nat) w.mtp.custody)
+  let w1 : W := { w with pool := w.pool.setBal nat b }
+  let c ← liftM w1 (Uint.add (w1.pool.cust nat) w1.mtp.custody)
+  let w2 : W := { w1 with pool := w1.pool.setCust nat c }
   pure w2.storePool
 
 /-- `TakeOutCustody` -/
 def takeOutCustody (w : W) : R W := do
-  let nat : Bool := w.mtp.cust = native
-  let c ← liftM w (Uint.sub (if nat then w.pool.nCust else w.pool.eCust) w.mtp.custody)
-  let w1 : W := { w with pool := if nat then { w.pool with nCust := c } else { w.pool with eCust := c } }
-  let b ← liftM w1 (Uint.add (if nat then w1.pool.nBal else w1.pool.eBal) w1.mtp.custody)
-  let w2 : W := { w1 with pool := if nat then { w1.pool with nBal := b } else { w1.pool with eBal := b } }
+  let nat : Bool := isNative w.mtp.cust
+  let c ← liftM w (Uint.sub (w.pool.cust nat) w.mtp.custody)
+  let w1 : W := { w with pool := w.pool.setCust nat c }
+  let b ← liftM w1 (Uint.add (w1.pool.bal nat) w1.mtp.custody)
+  let w2 : W := { w1 with pool := w1.pool.setBal nat b }
   pure w2.storePool
 
 /-- the three-way split of `Repay`: (returnAmount, debtP, debtI) -/
@@ -364,14 +378,14 @@ def repay (w : W) (repayAmount : Nat) (takeFund : Bool) : R W := do
   let _owe ← liftM w1 (Uint.add liab unpaid)
   let sp := repaySplit repayAmount liab unpaid
   let w2 ← repayPayout w1 sp.1 takeFund
-  let nat : Bool := w2.mtp.coll = native
-  let b ← liftM w2 (Uint.sub (if nat then w2.pool.nBal else w2.pool.eBal) sp.1)
-  let w3 : W := { w2 with pool := if nat then { w2.pool with nBal := b } else { w2.pool with eBal := b } }
-  let l ← liftM w3 (Uint.sub (if nat then w3.pool.nLiab else w3.pool.eLiab) w3.mtp.liab)
-  let w4 : W := { w3 with pool := if nat then { w3.pool with nLiab := l } else { w3.pool with eLiab := l } }
-  let u1 ← liftM w4 (Uint.add (if nat then w4.pool.unsN else w4.pool.unsE) sp.2.2)
+  let nat : Bool := isNative w2.mtp.coll
+  let b ← liftM w2 (Uint.sub (w2.pool.bal nat) sp.1)
+  let w3 : W := { w2 with pool := w2.pool.setBal nat b }
+  let l ← liftM w3 (Uint.sub (w3.pool.liab nat) w3.mtp.liab)
+  let w4 : W := { w3 with pool := w3.pool.setLiab nat l }
+  let u1 ← liftM w4 (Uint.add (w4.pool.uns nat) sp.2.2)
   let u2 ← liftM w4 (Uint.add u1 sp.2.1)
-  let w5 : W := { w4 with pool := if nat then { w4.pool with unsN := u2 } else { w4.pool with unsE := u2 } }
+  let w5 : W := { w4 with pool := w4.pool.setUns nat u2 }
   let s ← liftE w5 (w5.s.destroyMtp w5.mtp.addr w5.mtp.id)
   pure ({ w5 with s := s } : W).storePool
 
@@ -400,11 +414,11 @@ def iipBody (w : W) (interest : Nat) : R (Nat × W) := do
   let tw ← takeFundPayment w5 e.2.2 w5.mtp.cust w5.s.params.iipPct w5.s.params.iipAddr
   let w6 := tw.2
   let actual ← liftM w6 (Uint.sub e.2.2 tw.1)
-  let nat : Bool := w6.mtp.cust = native
-  let c ← liftM w6 (Uint.sub (if nat then w6.pool.nCust else w6.pool.eCust) e.2.2)
-  let w7 : W := { w6 with pool := if nat then { w6.pool with nCust := c } else { w6.pool with eCust := c } }
-  let b ← liftM w7 (Uint.add (if nat then w7.pool.nBal else w7.pool.eBal) actual)
-  let w8 : W := { w7 with pool := if nat then { w7.pool with nBal := b } else { w7.pool with eBal := b } }
+  let nat : Bool := isNative w6.mtp.cust
+  let c ← liftM w6 (Uint.sub (w6.pool.cust nat) e.2.2)
+  let w7 : W := { w6 with pool := w6.pool.setCust nat c }
+  let b ← liftM w7 (Uint.add (w7.pool.bal nat) actual)
+  let w8 : W := { w7 with pool := w7.pool.setBal nat b }
   let w9 ← w8.storeMtp
   pure (actual, w9.storePool)
 
@@ -427,7 +441,7 @@ def handleInterestPayment (fx : Fixes) (w : W) (interest : Nat) : R (Nat × W) :
 
 /-- add the final interest payment to the pool's per-block counter (the side the payment was made in) -/
 def addBlockInterest (w : W) (fin : Nat) : R W := do
-  let nat : Bool := w.mtp.coll = native
+  let nat : Bool := isNative w.mtp.coll
   let b ← liftM w (Uint.add (if nat then w.pool.biE else w.pool.biN) fin)
   pure { w with pool := if nat then { w.pool with biE := b } else { w.pool with biN := b } }
 
@@ -491,25 +505,25 @@ def openWrites (w : W) (msg : MsgOpen) (custody : Nat) (eta : Dec) : R W := do
 def openLong (fx : Fixes) (s : State) (msg : MsgOpen) : Except Err W := do
   let leverage := if msg.leverage < s.params.leverageMax then msg.leverage else s.params.leverageMax
   let eta ← liftP (Dec.sub leverage Dec.one)
-  let _ ← ensure (s.params.rowanCollateral || !(msg.coll = native)) .rowanCollateral
-  let ext : Asset := if msg.coll = native then msg.borrow else msg.coll
+  let _ ← ensure (s.params.rowanCollateral || !(isNative msg.coll)) .rowanCollateral
+  let ext : Asset := if isNative msg.coll then msg.borrow else msg.coll
   let pool ← s.getPool ext
   let _ ← ensure (s.isPoolEnabled ext) .disabled
   let levDec ← liftP (Dec.mul (Dec.ofNat msg.collAmt) leverage)
   let levAmt ← liftP (Uint.ofInt levDec.truncateInt)
-  let _ ← ensure (!(decide (levAmt > (if msg.coll = native then pool.nBal else pool.eBal)))) .borrowTooHigh
+  let _ ← ensure (!(decide (levAmt > (if isNative msg.coll then pool.nBal else pool.eBal)))) .borrowTooHigh
   let _ ← checkMinLiabilities s msg.collAmt eta pool msg.borrow
   let custody ← clpSwap s levAmt msg.borrow pool
-  let _ ← ensure (!(decide (custody > (if msg.coll = native then pool.eBal else pool.nBal)))) .custodyTooHigh
+  let _ ← ensure (!(decide (custody > (if isNative msg.coll then pool.eBal else pool.nBal)))) .custodyTooHigh
   -- repaired code (F15): the last refusal before anything is written
-  let _ ← ensure (!fx.openPair || ((decide (msg.coll = native)) != (decide (msg.borrow = native)))) .invalidAsset
+  let _ ← ensure (!fx.openPair || (isNative msg.coll != isNative msg.borrow)) .invalidAsset
   dropW (openWrites { s := s, pool := pool, mtp := newMtp msg leverage } msg custody eta)
 
 /-- `Open` (message handler; ValidateBasic is applied by the caller) -/
 def openMsg (fx : Fixes) (s : State) (msg : MsgOpen) : Except Err W := do
   let _ ← ensure (!(s.params.whitelisting && !s.whitelist.contains msg.signer)) .unauthorised
   let _ ← ensure (!(decide (s.openCount ≥ s.params.maxOpen))) .maxOpen
-  let ext : Asset := if msg.coll = native then msg.borrow else msg.coll
+  let ext : Asset := if isNative msg.coll then msg.borrow else msg.coll
   let pool ← s.getPool ext
   let _ ← ensure (s.isPoolEnabled ext && !s.isPoolClosed ext) .disabled
   let _ ← ensure (!(decide (pool.health ≤ s.params.poolOpenThreshold))) .disabled
@@ -517,7 +531,7 @@ def openMsg (fx : Fixes) (s : State) (msg : MsgOpen) : Except Err W := do
   openLong fx s msg
 
 /-- the pool a stored position lives in (as `CloseLong`/`AdminClose` look it up) -/
-def Mtp.poolSym (m : Mtp) : Asset := if m.coll = native then m.cust else m.coll
+def Mtp.poolSym (m : Mtp) : Asset := if isNative m.coll then m.cust else m.coll
 
 /-- `Close` -/
 def closeMsg (fx : Fixes) (s : State) (signer : Addr) (id : Nat) : Except Err (Nat × W) := do
